@@ -849,8 +849,8 @@ def complete_stage():
         Obl("C05/T2b/CompleteStage", P.no_push_after_commit, when="any"),
         Obl("C06/T3/CompleteStage", P.t3_legal_write(), when="any"),
         Obl("C06/stage-never-redirect/CompleteStage", P.stage_status_never_redirect, when="any"),
-        Obl("C13/T4/CompleteStage", _cs_events, when="any"),
-        Obl("C12/T4/CompleteStage", _cs_events, when="any"),
+        Obl("C13/T4/CompleteStage", _cs_events, when="any", scenario="d6b_complete_stage_error_path_event.py"),
+        Obl("C12/T4/CompleteStage", _cs_events, when="any", scenario="d6b_complete_stage_error_path_event.py"),
     ]
     return handler_unit("*", "L2/CompleteStage", H + "complete_stage.handler:CompleteStageHandler", "CompleteStage", obls,
                         extra=lambda I: {"task_registry": SNone}, registry=complete_stage_registry())
@@ -1169,7 +1169,7 @@ def skip_stage():
         Obl("C03/push/SkipStage", _continuation_after(("SKIPPED",)), when="any"),
         Obl("C05/T2b/SkipStage", P.no_push_after_commit, when="any"),
         Obl("C06/T3/SkipStage", P.t3_legal_write(), when="any"),
-        Obl("C13/T4/SkipStage", _events_inside(("record_stage_skipped",)), when="any"),
+        Obl("C13/T4/SkipStage", _events_inside(("record_stage_skipped",)), when="any", scenario="d6a_skip_event_outside_txn.py"),
     ]
     return handler_unit("*", "L2/SkipStage", H + "skip_stage:SkipStageHandler", "SkipStage", obls, registry=run_task_registry())
 
